@@ -83,12 +83,12 @@ theorem requestNodes_ok {env : Env} {source q : Str} {ns : List Node}
 
 /-! ### heap frame -/
 
-theorem writeAt_length (h : Heap) (a : Nat) (f : Node → Node) : (writeAt h a f).length = h.length := by
+theorem writeAt_length {α : Type} (h : Heap α) (a : Nat) (f : α → α) : (writeAt h a f).length = h.length := by
   induction h generalizing a with
   | nil => simp [writeAt]
   | cons x t ih => cases a <;> simp [writeAt, ih]
 
-theorem writeAt_get_ne (h : Heap) (a b : Nat) (f : Node → Node) (hne : a ≠ b) :
+theorem writeAt_get_ne {α : Type} (h : Heap α) (a b : Nat) (f : α → α) (hne : a ≠ b) :
     (writeAt h a f)[b]? = h[b]? := by
   induction h generalizing a b with
   | nil => simp [writeAt]
